@@ -496,8 +496,10 @@ def conc_sessions(ctx, n=None, only=None):
         if only is not None:
             outs = {bytes.fromhex(a): [bytes.fromhex(c) for c in cs] for a, cs in only["outs"]}
         bias = {"C07": ["push", "push", "push", "stat", "pull", "shell"], "C08": ["pull", "pull", "push", "stat", "shell"],
-                "C09": ["stat", "stat", "pull", "push", "shell"], "C10": ["push", "pull", "stat"], "C06": ["shell", "push", "stat", "pull", "push"]}.get(ctx.prop, ["shell", "shell", "push", "stat", "pull"])
+                "C09": ["stat", "stat", "pull", "push", "shell"], "C10": ["push", "pull", "stat"], "C06": ["shell", "push", "stat", "pull", "push"], "C01": ["shell", "shell", "shell", "shell", "pull"]}.get(ctx.prop, ["shell", "shell", "push", "stat", "pull"])
         kinds = (only or {}).get("kinds") or [rng.choice(bias) for _ in range(nw)]
+        if only is None and ctx.prop == "C01" and rng.random() < 0.5:
+            start, kinds = 0, ["shell"] * nw         # shell streams side by side whose (local, remote) id pairs mirror each other (see remote_ids below)
         if only is None and ctx.prop in ("C06", "C12") and rng.random() < 0.25:
             kinds[rng.randrange(nw)] = "close"       # somebody closes the device while the others are in the middle of their operations
         pushed = {i: bytes([97 + i]) * rng.choice([10, 3000, 5000]) for i in range(nw)}
@@ -516,7 +518,8 @@ def conc_sessions(ctx, n=None, only=None):
             fs[("/r%d" % i).encode()] = ("fail", b"No such file %d" % i)
         clock = transports.Clock(1 << 40)
         link = transports.Link(clock, [dict(sim=dict(maxdata=4096, shell=dict(outs), fs=fs, stat=stat, burst=bool((only or {}).get("burst", rng.random() < 0.3)),
-                                                   zero_local=bool((only or {}).get("zero_local", rng.random() < 0.2))), dt=1)])
+                                                   zero_local=bool((only or {}).get("zero_local", rng.random() < 0.2)),
+                                                   remote_ids=[("rot", nw)] * 30 if (only or {}).get("rot", start == 0 and rng.random() < (0.8 if ctx.prop == "C01" else 0.4)) else []), dt=1)])
         sync_mod.time = clock
         async_mod.time = clock
         order = (only or {}).get("order")
@@ -664,7 +667,7 @@ def conc_sessions(ctx, n=None, only=None):
         sim = link.used[0].sim
         rep.evaluations += 1
         rep.count("conc_sessions_mode", mode)
-        ser = dict(kind="conc-sessions", mode=mode, workers=nw, start=start, lines=bool(lines), burst=bool(sim.cfg.get("burst")), zero_local=bool(sim.cfg.get("zero_local")), failing=list(failing),
+        ser = dict(kind="conc-sessions", mode=mode, workers=nw, start=start, lines=bool(lines), burst=bool(sim.cfg.get("burst")), zero_local=bool(sim.cfg.get("zero_local")), failing=list(failing), rot=bool(sim.cfg.get("remote_ids")),
                    outs=[[a.hex(), [c.hex() for c in cs]] for a, cs in sorted(outs.items())], order=sched_order, kinds=kinds,
                    pushed={str(k2): v.hex() for k2, v in pushed.items()}, pulled={str(k2): v.hex() for k2, v in pulled.items()})
         rep.signatures.add(("concsess", mode, nw, tuple(sched_order[:40])))
